@@ -15,6 +15,10 @@
 //
 // A third sub-check, `computed` (computed_test.go), varies the ORIGIN of the value instead of its route: the
 // result of an operation against the same value spelled as a literal, under & and a write through the pointer.
+//
+// A fourth sub-check, `alias` (alias_test.go), binds the routed value to a new name and looks at its IDENTITY: a
+// write through the new name followed by a read through the old one (modules are copied by = and var, reference
+// values are shared - the same way for every provenance).
 package c20
 
 import (
@@ -1053,11 +1057,16 @@ func run(c Case, src string) outcome {
 
 // runNames runs src in a fresh env and renders the result and the final content of the named variables.
 func runNames(src string, names []string) outcome {
+	return runNamesIn(newEnv, src, names)
+}
+
+// runNamesIn is runNames with the env made by mk (called after the source parsed).
+func runNamesIn(mk func() *env.Env, src string, names []string) outcome {
 	stmt, perr := parser.ParseSrc(src)
 	if perr != nil {
 		return outcome{parseErr: perr}
 	}
-	e := newEnv()
+	e := mk()
 	ctx, cancel := context.WithTimeout(context.Background(), runTimeout)
 	defer cancel()
 	v, err := exec(ctx, e, stmt)
@@ -1295,4 +1304,5 @@ func TestC20(t *testing.T) {
 	h.Run(c, "provenance", c.N(40000, 400000), genCase, oracle)
 	runHeld(c)
 	runComputed(c)
+	runAlias(c)
 }
